@@ -21,8 +21,13 @@ def conditions(tier):
 
 
 def extra(tier):
-    from . import progs_a
-    return progs_a.run("C10", tier)
+    from .. import enga, runner
+    from . import misc_probe, progs_a
+
+    res = list(progs_a.run("C10", tier))
+    enga.init()
+    res += misc_probe.run_out_buffers(runner.SEED)  # float64 probe: caller-provided out= buffers
+    return res
 
 
 BProp("C10", conditions,
